@@ -641,7 +641,7 @@ func (c *Conn) handleCall(ctx context.Context, call rpccp.Call, releaseCall capn
 		return nil
 	case rpccp.MessageTarget_Which_promisedAnswer:
 		tgtAns := c.answers[p.target.promisedAnswer]
-		if tgtAns == nil || tgtAns.flags&finishReceived != 0 {
+		if tgtAns == nil || tgtAns == ans || tgtAns.flags&finishReceived != 0 {
 			ans.ret = rpccp.Return{}
 			ans.sendMsg = nil
 			ans.releaseMsg = nil
